@@ -333,6 +333,7 @@ def extract_fn(relpath, qual, ann):
     apply_storage_has(ed, it, src)
     apply_anyloops(ed, it, it["closures"], src, ann, qual)
     apply_findloops(ed, it, it["closures"], src, ann, qual)
+    apply_findmuts(ed, it, it["closures"], src, ann, qual)
     # R6 response attributes
     if ann.get("drop_response_attrs", True):
         for m in it.get("mcalls", []):
@@ -473,6 +474,59 @@ def apply_findloops(ed, it, closures, src, ann, qual):
         ext = (ann.get("findexits") or {}).get(str(k), "").strip()
         ed.add(b1, mp["span"][1], " { verif_found = Some(" + ptxt + "); " + hit + " break; } verif_fi = verif_fi + 1; } " + ext + " verif_found }", None)
 
+
+
+def apply_findmuts(ed, it, closures, src, ann, qual):
+    """D19: `if let Some(NAME) = X.iter_mut().find(|p| COND) { NAME.F = EXPR; } [else ..]` -> an index loop over X that stops at the first
+    element satisfying COND (copied by span) and yields its index; the THEN block works on a clone of X[idx] that is written back with
+    `X.set(idx, NAME)` at its end. Accepted only when THEN is that single field assignment (EXPR, with any `?`, is evaluated before the
+    write in both forms, so no partial update can be observed)."""
+    for k, inv in (ann.get("findmuts") or {}).items():
+        k = int(k)
+        if k >= len(closures):
+            raise Inconclusive(f"anchor lost: closure #{k} of {qual} (findmut)")
+        c = closures[k]
+        mp = [m for m in it["mcalls"] if m["name"] == "find" and len(m["args"]) == 1 and m["args"][0] == c["span"]]
+        if len(mp) != 1 or len(c["params"]) != 1:
+            raise Inconclusive(f"D19: closure #{k} of {qual} is not the argument of a .find(|p| ..) call")
+        mp = mp[0]
+        itc = [m for m in it["mcalls"] if m["name"] == "iter_mut" and m["span"][1] == mp["recv_end"]]
+        if len(itc) != 1:
+            raise Inconclusive(f"D19: .find of closure #{k} in {qual} is not of the shape X.iter_mut().find(..)")
+        itc = itc[0]
+        xsrc = src[itc["span"][0]:itc["recv_end"]].decode().strip()
+        if not re.match(r"^\w+$", xsrc):
+            raise Inconclusive(f"D19: `{xsrc[:30]}` is not a plain local vector")
+        line_start = src.rfind(b"\n", 0, itc["span"][0]) + 1
+        pre = src[line_start:itc["span"][0]].decode()
+        mm = re.match(r"^(\s*)if\s+let\s+Some\(\s*(\w+)\s*\)\s*=\s*$", pre)
+        if not mm:
+            raise Inconclusive(f"D19: the find of closure #{k} in {qual} is not the scrutinee of a statement `if let Some(name) = ..`")
+        name = mm.group(2)
+        if_start = line_start + len(mm.group(1))
+        rest = src[mp["span"][1]:]
+        off = len(rest) - len(rest.lstrip())
+        if rest[off:off + 1] != b"{":
+            raise Inconclusive(f"D19: no block after the find of closure #{k} in {qual}")
+        then = [b for b in it["blocks"] if b["span"][0] == mp["span"][1] + off]
+        if len(then) != 1 or len(then[0]["stmts"]) != 1:
+            raise Inconclusive(f"D19: THEN block of the find-mut #{k} in {qual} is not a single statement")
+        then = then[0]
+        st = src[then["stmts"][0]["span"][0]:then["stmts"][0]["span"][1]].decode()
+        if not re.match(r"^" + name + r"\.\w+\s*=[^=]", st) or ("*" + name) in st:
+            raise Inconclusive(f"D19: THEN block of the find-mut #{k} in {qual} is not `{name}.field = EXPR;`")
+        ptxt = src[c["params"][0]["span"][0]:c["params"][0]["span"][1]].decode().strip()
+        b0, b1 = c["body"]
+        cond = src[b0:b1].decode()
+        hit = (ann.get("findmuthits") or {}).get(str(k), "").strip()
+        ext = (ann.get("findmutexits") or {}).get(str(k), "").strip()
+        loop = (f"let mut verif_mh{k}: Option<usize> = None; let mut verif_mi{k}: usize = 0;\n"
+                f"while verif_mi{k} < {xsrc}.len()\n" + inv.rstrip() + f"\n    decreases {xsrc}.len() - verif_mi{k}\n"
+                f"{{ let {ptxt} = &{xsrc}[verif_mi{k}]; if {cond} {{ verif_mh{k} = Some(verif_mi{k}); {hit} break; }} verif_mi{k} = verif_mi{k} + 1; }} {ext}\n")
+        ed.add(if_start, mp["span"][1], loop + f"if let Some(verif_mx{k}) = verif_mh{k}", "D19",
+               f"`{xsrc}.iter_mut().find(..)` desugared to an index loop yielding the index of the first match (closure body copied by span)")
+        ed.add(then["span"][0] + 1, then["span"][0] + 1, f" let mut {name} = {xsrc}[verif_mx{k}].clone(); ", "D19", f"THEN block works on a clone of `{xsrc}[idx]` written back by `set`")
+        ed.add(then["span"][1] - 1, then["span"][1] - 1, f" {xsrc}.set(verif_mx{k}, {name}); ", None)
 
 
 def apply_storage_has(ed, it, src, inside=lambda sp: True):
